@@ -36,7 +36,7 @@ From AV Require Import Base.Prelude Base.FloatUtil Model.GenericLearner Model.Da
 Open Scope nat_scope."""
 
 KINDS = ["l1d", "lnd", "seq", "avg", "int", "l2d", "avg1d"]
-COPY_LIVE = False      # copy_from a saver that goes on living (shares extra_data on the code as it is)
+COPY_LIVE = True       # copy_from / _set_data(_get_data()) from a saver that goes on living and being told
 PICKERS = ["itemgetter", "lambda_dict", "identity"]
 
 
@@ -72,6 +72,24 @@ def probe_retell_overwrites():
         return ds.extra_data[0.0] != first        # only "keeps exactly the first result" counts as repaired
     except Exception:
         return True
+
+
+_MERGES: dict = {}
+
+
+def learner_merges(kind):
+    """Does the bare learner's own load ADD the loaded points to what it holds (Learner1D, SequenceLearner,
+    AverageLearner1D re-tell them) or REPLACE its data (Learner2D, LearnerND, AverageLearner, IntegratorLearner)?
+    Probed on the bare learner: what a DataSaver around it has to keep after a load depends on it."""
+    if kind not in _MERGES:
+        a, b = W.make_child(kind, 0, 40), W.make_child(kind, 0, 40)
+        prefill(kind, a, 2)
+        prefill(kind, b, 5)
+        fname = os.path.join(work_dir(), f"probe_{kind}.pickle")
+        a.save(fname)
+        b.load(fname)
+        _MERGES[kind] = len(told_map(kind, b)) > len(told_map(kind, a))
+    return _MERGES[kind]
 
 
 class CountingPicker:
@@ -118,6 +136,7 @@ def dec_point(kind, child, enc):
 
 FREE_KINDS = ("l1d", "seq", "avg", "l2d", "avg1d")     # accept tells / tell_pending of points they never handed out
 RESTORE_HOWS = ["load", "load", "set_data", "copy_from"]
+LIVE_HOWS = ["copy_live", "set_data_live"]
 
 
 def gen_history(rng, kind, maxlen, persist=True):
@@ -244,9 +263,20 @@ def apply_op(kind, l, op, wrapped, picker_name, side=None):
                 tmp = side.fresh()
                 tmp.load(side.path(op[1]))
                 l.copy_from(tmp)
-            else:                             # "copy_live": from the other run, which goes on living
+            elif how == "copy_live":          # from the other run, which goes on living (and being told)
                 l.copy_from(side.donor)
+            else:                             # "set_data_live"
+                l._set_data(side.donor._get_data())
             return ("none",)
+        if op[0] == "donor_step":             # the other run goes on: it asks for a point and is told its result
+            d = side.donor
+            dchild = d.learner if wrapped else d
+            pts, _ = d.ask(1)
+            if not pts:
+                return ("none",)
+            r = make_result(picker_name, W.evaluate(kind, dchild, pts[0]), op[1])
+            d.tell(pts[0], r if wrapped else make_picker(picker_name)(r))
+            return ("donor", W.enc_point(kind, pts[0]), r)
         # --- data that reaches the wrapped learner without passing through the DataSaver ---------
         if op[0] == "inner_tell":
             child.tell(dec_point(kind, child, op[1]), op[2])
@@ -414,8 +444,10 @@ def drive(spec, hist=None, rng=None, concrete=None, record=True, overwrites=True
             errors.append(("C18:persist_exception", f"saving the other run: {type(e).__name__}: {e}"))
             donor = None
 
+    live_copied = [False]
     retell_at = [None]       # index of the first re-tell the child ignored (F20 trigger), if any
-    drop_at = [None]         # index of the first load after which told points known to the learner have no result
+    drop_at = [None]         # index of the first load into a saver holding results of points that are not in the
+                             # loaded state but that the wrapped learner keeps knowing (its _set_data merges)
 
     def items_of(op):
         if op[0] == "tell":
@@ -438,6 +470,11 @@ def drive(spec, hist=None, rng=None, concrete=None, record=True, overwrites=True
         items = items_of(op)
         cur = told_map(kind, child) if items else {}
         old_keys = list(key_order)
+        live_src = None
+        if op[0] == "restore" and op[2] in LIVE_HOWS:      # the other run as it is right now
+            live_src = {"expected": {k: list(v) for k, v in donor["expected_extra"].items()}, "order": list(donor["key_order"]),
+                        "excused": set(donor["excused"]), "T": set(told_map(kind, donor["ds"].learner)),
+                        "extra_obs": extra_obs(donor["ds"])}
         out = apply_op(kind, ds, op, True, pname, wside)
         tout = apply_op(kind, twin, op, False, pname, tside)
         T = set(told_map(kind, child))
@@ -471,6 +508,11 @@ def drive(spec, hist=None, rng=None, concrete=None, record=True, overwrites=True
             outstanding.extend(out[3])
         if op[0] == "remove_unfinished":
             outstanding.clear()
+        if op[0] == "donor_step" and out[0] == "donor":
+            hp = W.hashable(kind, dec_point(kind, donor["ds"].learner, out[1]))
+            if hp not in donor["expected_extra"]:
+                donor["key_order"].append(hp)
+            donor["expected_extra"][hp] = [out[2]]
         try:
             keys = [W.hashable(kind, k) for k in ds.extra_data.keys()]
         except Exception:
@@ -484,22 +526,25 @@ def drive(spec, hist=None, rng=None, concrete=None, record=True, overwrites=True
         if op[0] == "restore" and out[0] == "none":
             # the saver now holds the loaded state: full results for the loaded points, and -- when the wrapped
             # learner's own _set_data merges instead of replacing -- still those of the points it keeps knowing
-            src = slots[op[1]]
+            src = live_src if op[2] in LIVE_HOWS else slots[op[1]]
             loaded_extra[len(steps)] = src["extra_obs"]
             stats["restores"] += 1
             absent = [k for k in key_order if k not in src["expected"]]
             stats["restores_into_saver_holding_other_points"] += bool(absent)
-            stats["restores_learner_forgets_points"] += any(k not in T for k in absent)
-            stats["restores_learner_keeps_points"] += any(k in T for k in absent)
+            stats["restores_learner_forgets_points"] += bool(absent) and not learner_merges(kind)
+            stats["restores_learner_keeps_points"] += bool(absent) and learner_merges(kind)
             new_expected = {k: list(v) for k, v in src["expected"].items()}
             new_order = list(src["order"])
             kept = []
+            merges = learner_merges(kind)
             for k in key_order:
                 if k in new_expected:
                     new_expected[k] = new_expected[k] + [r for r in expected_extra[k] if r not in new_expected[k]]
-                elif k in T:
+                elif merges and k in T:
                     kept.append(k)
                     new_expected[k] = list(expected_extra[k])
+            if kept and drop_at[0] is None:
+                drop_at[0] = len(steps)       # trigger of the listed finding C18:load_drops_told_result (whatever the code does)
             new_excused = (excused | src["excused"]) & set(new_order + kept)
             surplus = [k for k in keys if k not in new_expected]
             missing = [k for k in new_order + kept if k not in keys]
@@ -512,8 +557,6 @@ def drive(spec, hist=None, rng=None, concrete=None, record=True, overwrites=True
                                     f"(wrapped learner knows {len(T)} points, extra_data has {len(keys)} keys)"))
             if missing:
                 if all(k in kept for k in missing):
-                    if drop_at[0] is None:
-                        drop_at[0] = len(steps)
                     errors.append(("C18:load_drops_told_result",
                                    f"after {op[2]} of checkpoint {op[1]!r} the wrapped learner still knows the told point(s) "
                                    f"{missing[:4]} (its _set_data merges) but their full results are gone from extra_data "
@@ -536,11 +579,17 @@ def drive(spec, hist=None, rng=None, concrete=None, record=True, overwrites=True
         extra_ok = False
         lost = [hp for hp in key_order if hp not in keys]
         stray = [k for k in keys if k not in T and k not in excused]
-        if judged_restore and (surplus or missing):
+        if judged_restore and not surplus and missing and all(k in kept for k in missing):
+            extra_ok = True                       # reported above (results dropped by a load); the history goes on
+        elif judged_restore and (surplus or missing):
             pass                                  # reported above
         elif lost and out[0] != "exc":
             errors.append(("C18:told_result_lost", f"after {op[0]} the full result of told point(s) {lost[:4]} is no longer "
                                                    f"retrievable from extra_data (keys {keys[:6]})"))
+        elif keys != key_order and out[0] != "exc" and op[0] == "donor_step":
+            errors.append(("C18:copy_from_shares_extra_data",
+                           f"a result told to the DataSaver this one copied from shows up here: extra_data keys {keys[:6]}, "
+                           f"told points {key_order[:6]}"))
         elif keys != key_order and out[0] != "exc":
             errors.append(("C18:extra_data_keys", f"extra_data keys {keys[:6]} != told points {key_order[:6]}"))
         elif stray and out[0] != "exc":
@@ -667,8 +716,20 @@ def drive(spec, hist=None, rng=None, concrete=None, record=True, overwrites=True
                 cands = sorted(slots, key=str)
                 if cands:
                     slot = rng.choice(cands)
-                    how = rng.choice(RESTORE_HOWS + (["copy_live"] if slot == "donor" and spec.get("copy_live") else []))
+                    how = rng.choice(RESTORE_HOWS)
+                    if slot == "donor" and spec.get("copy_live") and rng.random() < 0.6:
+                        how = rng.choice(LIVE_HOWS)
                     do(("restore", slot, how), True)
+                    if how in LIVE_HOWS:
+                        live_copied[0] = True
+            elif k == "restore_live":
+                if "donor" in slots:
+                    do(("restore", "donor", rng.choice(LIVE_HOWS)), True)
+                    live_copied[0] = True
+            elif k == "donor_step":
+                if live_copied[0]:
+                    tag[0] += 1
+                    do(("donor_step", tag[0]), full)
             elif k == "inner_tell":
                 got = new_point(rng.choice(["outstanding", "unsolicited"]))
                 if got is not None:
@@ -684,7 +745,7 @@ def drive(spec, hist=None, rng=None, concrete=None, record=True, overwrites=True
                 break
     if rec is not None:
         rec.unwrap()
-    if donor is not None and not stop and spec.get("copy_live"):
+    if donor is not None and spec.get("copy_live"):
         # the other run was not touched by this one: it still holds exactly its own results
         dk = [W.hashable(kind, q) for q in donor["ds"].extra_data]
         if dk != donor["key_order"]:
@@ -709,6 +770,9 @@ def twin_check(spec, res):
             break
         if out[0] == "ask" and (out[1] != tout[1] or not all(feq(a, b) for a, b in zip(out[2], tout[2])) or len(out[2]) != len(tout[2])):
             errs.append(("C18:twin_ask", f"step {j}: ask({op[1]}) wrapped -> {out[1][:4]} {out[2][:4]}, bare -> {tout[1][:4]} {tout[2][:4]}"))
+            break
+        if out[0] == "donor" and out[1] != tout[1]:
+            errs.append(("C18:twin_ask", f"step {j}: the other run asks for {out[1]} wrapped, {tout[1]} bare"))
             break
         if out[0] == "loss" and not feq(out[1], tout[1]):
             errs.append(("C18:twin_loss", f"step {j}: loss(real={op[1]}) wrapped {out[1]} != bare {tout[1]}"))
@@ -830,8 +894,9 @@ def coq_ops(spec, res, steps):
             break
         if ob is None:
             break                      # extra_data was malformed here (reported by the oracle)
-        if op[0] == "inner_tmap":
-            break                      # tell_many_at_point on the wrapped learner: not a call the oracle child records
+        if op[0] in ("inner_tmap", "donor_step"):
+            break                      # tell_many_at_point on the wrapped learner: not a call the oracle child records;
+                                       # the other run goes on: it may share objects with the wrapped learner (copy_from)
         if op[0] == "save":
             continue
         if op[0] == "tell":
@@ -963,7 +1028,13 @@ def run(chk: Check) -> int:
             spec["donor"] = {"npseed": dspec["npseed"], "prefill": dspec["prefill"], "ops": [list(st[0]) for st in dres["steps"]]}
             if COPY_LIVE and rng.random() < 0.5:
                 spec["copy_live"] = True
-        res = drive(spec, gen_history(rng, kind, ml), rng, overwrites=overwrites)
+        hist = gen_history(rng, kind, ml)
+        if spec.get("copy_live"):        # ... copied in memory while it goes on living and being told
+            at = rng.randrange(len(hist) + 1)
+            hist.insert(at, ("restore_live",))
+            for _ in range(rng.randint(1, 3)):
+                hist.insert(rng.randint(at + 1, len(hist)), ("donor_step",))
+        res = drive(spec, hist, rng, overwrites=overwrites)
         add(spec, res, f"seed{chk.seed}/{k}", k)
         if len(cases) >= 1500:
             flush(f"cases{k}")
